@@ -497,6 +497,13 @@ theorem siddReader_written (segs : List Nat) (hs : segs ≠ []) :
     exact (mem_siddImagesFrom 0 segs _).2 ⟨j, hj, by simp⟩
   simp only [siddReader, hany, hbad, hall, Bool.not_true, Bool.false_eq_true, if_false, if_true]
 
+/-- the fallback complex opener gives up on a file whose first image segment is an integer SAR segment (extract_sicd: ValueError) -/
+theorem scanBands_sidd_written (k : Nat) (segs : List Nat) (hs : segs ≠ []) :
+    scanBands ((siddImagesFrom k segs).map Img.hdr) false = .reject := by
+  cases segs with
+  | nil => exact absurd rfl hs
+  | cons s ss => simp [siddImagesFrom, List.replicate_succ, scanBands, checkBand, Img.hdr]
+
 theorem countP_siddDoc_written (extra : List Des) (n m : Nat) (h : ∀ e ∈ extra, isSiddDoc e = false) :
     (extra ++ (List.replicate n siddDes ++ List.replicate m sicdDes)).countP isSiddDoc = n := by
   have h0 : extra.countP isSiddDoc = 0 := by
@@ -571,7 +578,7 @@ theorem sidd_written_exclusive (p : Policy) (extra : List Des) (segs : List Nat)
     have hsio : sioIsA a (writeSidd extra segs nsicd g) = .reject := by
       cases a <;> simp [sioIsA, writeSidd]
     have hfin : finalAttempt a (writeSidd extra segs nsicd g) = .reject := by
-      cases a <;> simp [finalAttempt, himgs, hanysidd]
+      cases a <;> simp [finalAttempt, himgs, scanBands_sidd_written 0 segs hs]
     simp [openComplex, hsicd, hsio, hfin, cascade]
   have h3 : ∀ a, openPhaseHistory a (writeSidd extra segs nsicd g) = .reject := by
     intro a; simp [openPhaseHistory, writeSidd]
